@@ -485,6 +485,9 @@ class SignEval:
                 return all(self.nonneg(a) for a in e.args)
             return False
         if isinstance(e, ast.Name):
+            # a dominating test of the same name (`x if x > 0 else ..`, `if x >= 0:`, comprehension filter)
+            if parent(e) is not None and _nonneg_fact(e, e.id, self.fn):
+                return True
             return self._name(e.id)
         return False
 
